@@ -148,6 +148,21 @@ impl RawPeer {
             }
         }
     }
+    /// One read of whatever the session has written so far (at most the pipe's capacity); false at EOF.
+    pub async fn read_some(&mut self) -> bool {
+        let Some(r) = self.r.as_mut() else { return false };
+        let mut tmp = [0u8; 16384];
+        match r.read(&mut tmp).await {
+            Ok(0) | Err(_) => {
+                self.eof = true;
+                false
+            }
+            Ok(n) => {
+                self.buf.extend_from_slice(&tmp[..n]);
+                true
+            }
+        }
+    }
     /// Read frames until `pred` matches (returns it) or EOF / virtual horizon (None).
     pub async fn wait_for(&mut self, pred: impl Fn(&RFrame) -> bool) -> Option<RFrame> {
         let fut = async {
